@@ -2,7 +2,7 @@
    Termination: every model function is a structural recursion on the input list (accepted by the kernel's guard
    checker), so the models terminate on every input; what is proved below is the absence of leaked Python exceptions. *)
 From Coq Require Import ZArith List Bool.
-Require Import PyIR.Base.Result PyIR.Engine.Match PyIR.Engine.Parse PyIR.Engine.NoCrash PyIR.Engine.ParseM PyIR.Engine.ParseMProps PyIR.Proto.Descriptor
+Require Import PyIR.Base.Result PyIR.Engine.Match PyIR.Engine.Parse PyIR.Engine.NoCrash PyIR.Engine.ParseM PyIR.Engine.ParseMProps PyIR.Engine.ParseMD PyIR.Engine.ParseMDProps PyIR.Engine.ParseHT PyIR.Engine.ParseHTProps PyIR.Proto.Descriptor
                PyIR.Ctl.Dispatcher PyIR.Ctl.Instance PyIR.Ctl.NoCrash.
 Import ListNotations.
 Open Scope Z_scope.
@@ -15,6 +15,20 @@ Proof. exact parseH_no_pyerr. Qed.
 (* ... and the same for the Manchester data loop and for the classification in front of both *)
 Theorem C08_engine_never_leaks_any_pair_table : forall tol li lo t code, is_pyerr (parseC tol li lo t code) = false.
 Proof. exact parseC_no_pyerr. Qed.
+
+(* ... with middle timings: the Manchester loop with one positional entry (the RC6 family's double-width toggle bit) *)
+Theorem C08_engine_never_leaks_positional_middle : forall tol li lo t d code, (length (md_bursts d) <= length t)%nat ->
+  is_pyerr (parseMD tol li lo t d code) = false.
+Proof. exact parseMD_no_pyerr. Qed.
+
+(* ... and the halfbit loop with (mark, space) middle tuples (Proton, Samsung36, Sharp, Dyson2 ...): all seven clauses of
+   _check_timing, any number of tuples *)
+Theorem C08_engine_never_leaks_tuple_middle : forall tol li lo mids t code, is_pyerr (parseHT tol li lo mids t code) = false.
+Proof. exact parseHT_no_pyerr. Qed.
+
+(* the model with middle tuples extends the model without: with none declared it is parseH, equation for equation *)
+Theorem C08_tuple_middle_model_extends_plain : forall tol li lo t code, parseHT tol li lo [] t code = parseH tol li lo t code.
+Proof. exact parseHT_nil. Qed.
 
 (* one decoder instance (a class that does not override decode) in any state, any sequence of arbitrary inputs *)
 Theorem C08_decoder_never_leaks : forall D t tol frames s, Forall (fun r => is_pyerr r = false) (run_seq D t tol s frames).
@@ -47,6 +61,9 @@ Proof. vm_compute. reflexivity. Qed.
 
 Print Assumptions C08_engine_never_leaks.
 Print Assumptions C08_engine_never_leaks_any_pair_table.
+Print Assumptions C08_engine_never_leaks_positional_middle.
+Print Assumptions C08_engine_never_leaks_tuple_middle.
+Print Assumptions C08_tuple_middle_model_extends_plain.
 Print Assumptions C08_decoder_never_leaks.
 Print Assumptions C08_dispatcher_never_raises.
 Print Assumptions C08_one_leak_goes_through.
